@@ -159,6 +159,28 @@ def gen_string_reuse(rng, n, wants):
     return out
 
 
+def bulk_session_cases():
+    """Back-to-back documents whose first one is an array 32 / map 32 with 65536 and 65539 entries (and an
+    array 16 with 65535): ready-made CASES (not feed lines): such inputs are beyond TLC's sequence operators, so the
+    expected calls (code, element count, bytes consumed) are those of the encoder that wrote them."""
+    out = []
+    tail = bytes([0x81, 0xA3]) + b"end" + bytes([42])
+    tailv = node("o", c=[node("m", b"end", [node("i+", (42).to_bytes(8, "big"))])])
+    docs = []
+    for n in (65535, 65536, 65539):
+        hdr = (bytes([0xDC]) + n.to_bytes(2, "big")) if n < 65536 else (bytes([0xDD]) + n.to_bytes(4, "big"))
+        docs.append((hdr + bytes([(i % 100) for i in range(n)]), n))
+    for n in (65536, 65538):
+        body = b"".join(bytes([0xA3]) + b"%03d" % (i % 1000) + bytes([i % 50]) for i in range(n))
+        docs.append((bytes([0xDF]) + n.to_bytes(4, "big") + body, n))
+    for data, n in docs:
+        inp = data + tail
+        out.append({"fmt": "msgpack", "inp": list(inp), "lim": 10, "f": TRUE, "o": OPTS, "tag": "bulk-session",
+                    "session": [{"code": "Ok", "v": {"t": "bulk", "n": n}, "read": len(data)},
+                                {"code": "Ok", "v": tailv, "read": len(tail)}]})
+    return out
+
+
 def gen_prefixes_and_corruptions(rng, n):
     out = []
     for _ in range(n):
